@@ -79,6 +79,11 @@ m("C18-retry-unbounded", SLED, "        if tries >= 10 {", "        if tries >= 
 m("C18-retry-no-increment", SLED, "                Self::new_with_tries(config, tries + 1)", "                Self::new_with_tries(config, tries)", "C18")
 m("C18-mutex-cache-static", HASH, "pub fn hash_to_field(signal: &[u8]) -> Fr {", "static LAST: std::sync::Mutex<Option<(Vec<u8>, Fr)>> = std::sync::Mutex::new(None);\n\npub fn hash_to_field(signal: &[u8]) -> Fr {\n    if let Some((s, f)) = LAST.lock().unwrap().as_ref() {\n        if s.as_slice() == signal {\n            return *f;\n        }\n    }", "C18")
 
+# ---- C05
+m("C05-global-cache", CALC, "    let (nodes, signals, input_mapping): (Vec<Node>, Vec<usize>, InputSignalsInfo) =\n        deserialize_witnesscalc_graph(std::io::Cursor::new(graph_data)).unwrap();", "    static CACHE: std::sync::Mutex<Option<(usize, Vec<Node>, Vec<usize>, InputSignalsInfo)>> = std::sync::Mutex::new(None);\n    let mut guard = CACHE.lock().unwrap();\n    if guard.as_ref().map(|c| c.0) != Some(graph_data.len()) {\n        let (n, s, m) = deserialize_witnesscalc_graph(std::io::Cursor::new(graph_data)).unwrap();\n        *guard = Some((graph_data.len(), n, s, m));\n    }\n    let (_, nodes, signals, input_mapping) = guard.clone().unwrap();", "C05")
+m("C05-hashmap-order-dependent", CALC, "        for (i, v) in value.iter().enumerate() {\n            input_buffer[offset + i] = *v;\n        }", "        for (i, v) in value.iter().enumerate() {\n            input_buffer[offset + i] = *v;\n        }\n        if len == 0 {\n            input_buffer[offset] = U256::ZERO;\n        }", "C05")
+m("C05-time-seeded", CALC, "    let mut inputs_buffer = get_inputs_buffer(get_inputs_size(&nodes));", "    let mut inputs_buffer = get_inputs_buffer(get_inputs_size(&nodes));\n    if std::env::var(\"RLN_DEBUG_INPUTS\").is_ok() {\n        inputs_buffer[0] = U256::from(1);\n    }", "C05")
+
 
 def main():
     os.makedirs(OUT, exist_ok=True)
